@@ -81,10 +81,11 @@ def _regular_under_var(L, under_var=False):
 
 
 def reduce_nonlocal_two_levels_up(case, why):
-    """F07: a non-innermost reduce of an array with three or more list levels mis-assigns groups when inner lists
-    are empty (sum([[[]],[[2,1]]],axis=1) gives [[2,1],[]]; sum([[],[[],[0,2]]],axis=0) gives [[0,2],[]])."""
+    """F07: argmin/argmax along a non-innermost axis of an array with three or more list levels do not count the rows
+    that are too short to reach the position (argmax([[],[[1]]],axis=0) gives [[0]], not [[1]]).  (The other half of the
+    original F07 -- groups mis-assigned for every reducer -- is repaired by the fix recorded as F55.)"""
     return (case.get("act") == "reduce" and _negaxis(case) >= 2 and case.get("fromty", "").count(" * ") >= 2
-            and why.startswith("value differs"))
+            and case["args"]["reducer"] in ("argmin", "argmax") and why.startswith("value differs"))
 
 
 def reduce_argpos_missing_rows(case, why):
@@ -308,7 +309,11 @@ def sort_records_invalid(case, why):
     sorted field in a RegularArray of the wrong size)."""
     import re
     m = re.match(r"result of (arg)?sort fails validity: .* \[root type: (.*)\]$", why)
-    return bool(m) and ("{" in m.group(2) or "(" in m.group(2))
+    if m:
+        return "{" in m.group(2) or "(" in m.group(2)
+    ty = case.get("fromty") or ""
+    return (case.get("act") in ("sort", "argsort") and ("{" in ty or "(" in ty)
+            and (why.startswith("result fails validity") or why.startswith("tojson raised")))
 
 
 def broadcast_empty_regular_with_empty_list(case, why):
@@ -405,3 +410,53 @@ def numba_regular_size0_length(case, why):
             return True
         return ("x" in L and has(L["x"])) or any(has(x) for x in L.get("xs", []))
     return has(case.get("from")) and case.get("args", {}).get("prog") in ("range", "at", "range_at", "at_range", "at_at", "at_len", "field_x", "field_x_at")
+
+
+def cartesian_regular_size0(case, why):
+    """F53: ak.cartesian inserts length-1 regular dimensions and broadcasts; broadcast_and_apply refuses size 1 against
+    size 0, so any operand whose lists are a RegularArray of size 0 makes ak.cartesian raise."""
+    # (when the other operand is given as a multidimensional NumpyArray the same refusal surfaces one level further
+    #  down, as 'cannot broadcast NumpyArray of length n with NumpyArray of length 0')
+    if case.get("act") != "cartesian" or not ("cannot broadcast RegularArray of size 0 with RegularArray of size" in why
+                                              or ("cannot broadcast NumpyArray of length" in why and "of length 0" in why)):
+        return False
+    return any(L.get("c") == "Regular" and L.get("size") == 0 for L in (case.get("from", {}), case.get("aux", {})))
+
+
+def jagged_slice_multidim_numpy(case, why):
+    """F54: a jagged (variable-length) index applied to a MULTIDIMENSIONAL NumpyArray raises
+    'undefined operation: NumpyArray::getitem_next_jagged'; the same data as RegularArray over a flat NumpyArray works."""
+    return case.get("act") == "slice" and "NumpyArray::getitem_next_jagged" in why and \
+        any(it.get("k") == "jagged" for it in case.get("args", {}).get("items", []))
+
+
+def _record_with_list_field_under_list(L, under_list=False):
+    if not isinstance(L, dict):
+        return False
+    c = L.get("c")
+    if c == "Record" and under_list and any(_has_list(x) for x in L.get("xs", [])):
+        return True
+    ul = under_list or c in ("ListOffset", "List", "Regular") or (c == "Numpy" and len(L.get("shape", [0])) > 1)
+    if "x" in L and _record_with_list_field_under_list(L["x"], ul):
+        return True
+    return any(_record_with_list_field_under_list(x, ul) for x in L.get("xs", []))
+
+
+def _has_list(L):
+    if not isinstance(L, dict):
+        return False
+    if L.get("c") in ("ListOffset", "List", "Regular", "Str") or (L.get("c") == "Numpy" and len(L.get("shape", [0])) > 1):
+        return True
+    return ("x" in L and _has_list(L["x"])) or any(_has_list(x) for x in L.get("xs", []))
+
+
+def negative_axis_below_nested_record(case, why):
+    """F56: Content::axis_wrap_if_negative resolves a negative axis relative to the node it is called on but the result
+    is compared with the absolute depth; at the top they coincide, but below a record that is itself inside a list
+    (where the axis is first resolvable, in each field) the axis lands one or more levels too high:
+    num([[{x:[1]},{x:[2,3]}],[{x:[4,5,6]}]], axis=-1) returns an INVALID layout, local_index gives the field's
+    row numbers, flatten raises 'axis=0 not allowed', pad_none pads nothing, combinations mixes different records."""
+    ax = case.get("args", {}).get("axis") if isinstance(case.get("args"), dict) else None
+    if case.get("act") not in ("num", "localindex", "flatten", "pad", "comb") or ax is None or ax >= 0:
+        return False
+    return _record_with_list_field_under_list(case.get("from"))
